@@ -24,9 +24,9 @@ Trace == ndJsonDeserialize(IOEnv.TRACE_FILE)
 FromLog(r) ==
   [tok |-> r.tok, byMinUnit |-> r.byMinUnit, burned |-> r.burned, bal |-> r.bal,
    supply |-> r.supply, params |-> r.params, erc |-> r.erc, nonce |-> r.nonce,
-   registry |-> r.registry]
+   registry |-> r.registry, native |-> r.native, impl |-> r.impl, feeq |-> r.feeq]
 
-ObsOf(r) == [inexact |-> r.inexact]
+ObsOf(r) == [inexact |-> r.inexact, qdiff |-> r.qdiff]
 
 TraceInit ==
   /\ Trace[1].ev.name = "Init"
@@ -81,7 +81,17 @@ Clauses ==
    C10_ExactAtOne |-> C10_ExactAtOne(pre, ev, st),
    C10_Dust |-> C10_Dust(pre, ev, st),
    C10_SwapSettle |-> C10_SwapSettle(pre, ev, st),
-   C10_ScaleExact |-> Scale_Exact]
+   C10_ScaleExact |-> Scale_Exact,
+   \* diagnostics beyond the listed properties
+   X09_SupplyLedger |-> X09_SupplyLedger(st, gh),
+   X09_FeeQuote |-> X09_FeeQuote(pre, ev),
+   X09_BurnQuery |-> obs.qdiff = 0,
+   X10_ContractUnique |-> X10_ContractUnique(st),
+   X10_DeployBinds |-> X10_DeployBinds(pre, ev, st),
+   X10_HookIgnores |-> X10_HookIgnores(pre, ev, st),
+   X10_Upgrade |-> X10_Upgrade(pre, ev, st),
+   X12_Token_Accepted |-> X12_Token_Accepted_ModF12(st),
+   X12_Token_RoundTrip |-> X12_Token_RoundTrip(st)]
 
 Failing == IF ev.name = "Init" THEN {} ELSE {c \in DOMAIN Clauses : ~Clauses[c]}
 
@@ -104,7 +114,10 @@ Exercised ==
           "old_owner_rej", "new_owner_ok", "not_owner_rej", "dup_symbol_rej", "dup_minunit_rej", "fee_tax_pos",
           "reject", "deploy_ok", "toerc_ok", "fromerc_ok", "conv_rej", "evm_fail_rej",
           "erc_disabled_rej", "blocked_rej", "hook_ok", "swapfee_ok", "swapfee_dust",
-          "swapfee_panic", "lossless_row", "lossless_giveback", "lossless_ratio1"} :
+          "swapfee_panic", "lossless_row", "lossless_giveback", "lossless_ratio1",
+          "deploy_native_ok", "deploy_ibc_ok", "deploy_twice_rej", "deploy_unknown_rej",
+          "conv_native_ok", "hook_forged_ignored", "hook_forged_rej", "upgrade_ok", "upgrade_rej",
+          "f12_shape", "fee_len_other"} :
      CASE c = "issue_ok" -> ev.name = "Issue" /\ ev.ok
        [] c = "edit_ok" -> ev.name = "Edit" /\ ev.ok
        [] c = "edit_max_ok" -> ev.name = "Edit" /\ ev.ok /\ ev.max > 0
@@ -139,10 +152,22 @@ Exercised ==
                                 /\ Apply(pre, ev).why \in {"evm_revert", "evm_postcheck", "unsupported_key"}
        [] c = "erc_disabled_rej" -> ev.name \in ConvMsgs /\ ~ev.ok /\ Apply(pre, ev).why = "erc20_disabled"
        [] c = "blocked_rej" -> ~ev.ok /\ Apply(pre, ev).why = "blocked"
-       [] c = "hook_ok" -> ev.name = "Hook" /\ ev.ok
+       [] c = "hook_ok" -> GenuineHook(ev) /\ ev.ok
        [] c = "swapfee_ok" -> ev.name = "SwapFee" /\ ev.ok
        [] c = "swapfee_dust" -> ev.name = "SwapFee" /\ ev.ok /\ ev.burn < ev.amt
        [] c = "swapfee_panic" -> ev.name = "SwapFee" /\ ev.panic
+       [] c = "deploy_native_ok" -> ev.name = "Deploy" /\ ev.ok /\ ev.mu = STAKE
+       [] c = "deploy_ibc_ok" -> ev.name = "Deploy" /\ ev.ok /\ ev.mu # STAKE /\ ~HasMinUnit(pre, ev.mu)
+       [] c = "deploy_twice_rej" -> ev.name = "Deploy" /\ ~ev.ok /\ Apply(pre, ev).why = "already_deployed"
+       [] c = "deploy_unknown_rej" -> ev.name = "Deploy" /\ ~ev.ok
+                                     /\ Apply(pre, ev).why \in {"no_token", "symbol_exists"}
+       [] c = "conv_native_ok" -> ev.name \in ConvMsgs /\ ev.ok /\ ev.mu = STAKE /\ ev.sym = ""
+       [] c = "hook_forged_ignored" -> ev.name = "Hook" /\ ev.sym # "" /\ ev.ok
+       [] c = "hook_forged_rej" -> ev.name = "Hook" /\ ev.sym # "" /\ ~ev.ok
+       [] c = "upgrade_ok" -> ev.name = "Upgrade" /\ ev.ok
+       [] c = "upgrade_rej" -> ev.name = "Upgrade" /\ ~ev.ok
+       [] c = "f12_shape" -> F12Shape(st)
+       [] c = "fee_len_other" -> ev.name = "Issue" /\ ev.ok /\ Len(ev.sym) > 3
        [] c = "lossless_row" -> ev.name = "LossLess" /\ ev.ok
        [] c = "lossless_giveback" -> ev.name = "LossLess" /\ ev.ok /\ ev.burn # ev.amt
        [] c = "lossless_ratio1" -> ev.name = "LossLess" /\ ev.ok /\ ev.rn = ev.rd /\ ev.burn # ev.amt}
